@@ -69,8 +69,10 @@ where
     F: Parser<I, O, E>,
     E: ParseError<I>,
 {
-    debug_assert!(count <= VEC_SIZE);
     move |i: I| {
+        if count > VEC_SIZE {
+            return Err(nom::Err::Failure(E::from_error_kind(i, ErrorKind::TooLarge)));
+        }
         let mut input = i.clone();
         let mut res = crate::lib::std::vec::Vec::new();
 
@@ -78,7 +80,9 @@ where
             let input_ = input.clone();
             match f.parse(input_) {
                 Ok((i, o)) => {
-                    res.push(o).expect("Pushing item to full Vec");
+                    if res.push(o).is_err() {
+                        return Err(nom::Err::Failure(E::from_error_kind(i, ErrorKind::TooLarge)));
+                    }
                     input = i;
                 }
                 Err(nom::Err::Error(e)) => {
